@@ -10,8 +10,8 @@ import random
 
 from vf.gen import grammar
 
-CONSTRUCTS = ['if', 'ifelse', 'while', 'for', 'tryfinally', 'tryexcept', 'with']
-JUMPS = ['none', 'break', 'continue', 'return', 'raise']
+CONSTRUCTS = ['if', 'ifelse', 'while', 'for', 'tryfinally', 'tryexcept', 'tryexcept2', 'with']
+JUMPS = ['none', 'break', 'continue', 'return', 'raise', 'raise2']
 
 
 def valid(path, jump):
@@ -30,18 +30,19 @@ def all_skeletons(max_depth):
   return out
 
 
-def build(path, jump, reuse_target=False, uncond=False, pure=False):
+def build(path, jump, reuse_target=False, uncond=False, pure=False, ureads=()):
   """Returns (source, n_bits, n_loops)."""
   L = []
   emit = lambda ind, s: L.append('    ' * ind + s)
   log = (lambda tag, e: 'T(%r, %s)' % (tag, e)) if not pure else (lambda tag, e: 'r = r + %s' % e)
   emit(0, 'def f(a, b, c, xs, o, d):')
   emit(1, 'v = 0')
+  emit(1, 'u = 0')
   if pure:
     emit(1, 'r = 0')
   n = len(path)
   nloops = 0
-  has_raise = jump == 'raise'
+  has_raise = jump in ('raise', 'raise2')
   loopidx = {}
   for k, c in enumerate(path):
     if c in ('while', 'for'):
@@ -52,6 +53,7 @@ def build(path, jump, reuse_target=False, uncond=False, pure=False):
     if k == n:
       # leaf
       emit(ind, 'v = v + 1')
+      emit(ind, 'u = 5')
       if jump != 'none':
         if uncond:
           pre = ind
@@ -62,10 +64,13 @@ def build(path, jump, reuse_target=False, uncond=False, pure=False):
           emit(pre, 'return v + 5')
         elif jump == 'raise':
           emit(pre, "raise E1('leaf')")
+        elif jump == 'raise2':
+          emit(pre, "raise E2('leaf', 2)")
         else:
           emit(pre, jump)
       if not (uncond and jump != 'none'):
         emit(ind, 'v = v + 2')
+        emit(ind, 'u = 6')
         emit(ind, log('leafpost', 'v'))
       return
     c = path[k]
@@ -104,10 +109,24 @@ def build(path, jump, reuse_target=False, uncond=False, pure=False):
       emit(ind, 'except E1:')
       emit(ind + 1, 'v = v + 7')
       emit(ind + 1, log('exc%d' % k, 'v'))
+      if ('h%d' % k) in ureads:
+        emit(ind + 1, log('exc%d_u' % k, 'u'))
+    elif c == 'tryexcept2':
+      emit(ind, 'try:')
+      inner(k, ind + 1)
+      emit(ind, 'except E2:')
+      emit(ind + 1, 'v = v + 9')
+      emit(ind + 1, log('exc2_%d' % k, 'v'))
+      if ('h%d' % k) in ureads:
+        emit(ind + 1, log('exc2_%d_u' % k, 'u'))
     elif c == 'with':
       emit(ind, "with CM('cm%d'):" % k)
       inner(k, ind + 1)
     emit(ind, log('after%d' % k, 'v'))
+    if ('a%d' % k) in ureads:
+      emit(ind, log('after%d_u' % k, 'u'))
+    if ('o%d' % k) in ureads:
+      emit(ind, 'u = %d' % (7 + k))
 
   def inner(k, ind):
     emit(ind, 'v = v + %d' % (10 ** (k + 1)))
@@ -116,9 +135,9 @@ def build(path, jump, reuse_target=False, uncond=False, pure=False):
 
   body(0, 1)
   if pure:
-    emit(1, 'return (v, r)')
+    emit(1, 'return (v, r, u)' if 'f' in ureads else 'return (v, r)')
   else:
-    emit(1, 'return (v,)')
+    emit(1, 'return (v, u)' if 'f' in ureads else 'return (v,)')
   nbits = n + (1 if jump != 'none' and not uncond else 0)
   return '\n'.join(L) + '\n', nbits, nloops
 
@@ -139,19 +158,21 @@ def cases(seed, part, parts, tier, pure=False, constructs=None):
   depth = 3
   sk = all_skeletons(depth)
   if constructs is not None:
-    sk = [(p, j) for p, j in sk if all(c in constructs for c in p) and (j != 'raise' or 'raise' in constructs)]
+    sk = [(p, j) for p, j in sk if all(c in constructs for c in p) and (j not in ('raise', 'raise2') or 'raise' in constructs)]
   rng0 = random.Random('skel/%d' % seed)
   if tier == 'quick':
     # depth<=2 completely (small), depth 3 sampled
     small = [s for s in sk if len(s[0]) <= 2]
     big = [s for s in sk if len(s[0]) == 3]
     rng0.shuffle(big)
-    sk = small[::2] if seed % 2 == 0 else small[1::2]
-    sk = sk + big[:160]
+    # exceptional-flow skeletons (two handlers + raise) are always included
+    exc = [s for s in big if sum(c.startswith('tryexcept') for c in s[0]) >= 2 and s[1] in ('raise', 'raise2')]
+    rest = [s for s in big if s not in exc]
+    sk = small + exc + rest[:200]
   else:
     d4 = [(p, j) for p in itertools.product(constructs or CONSTRUCTS, repeat=4) for j in JUMPS if valid(p, j)]
     if constructs is not None and 'raise' not in constructs:
-      d4 = [s for s in d4 if s[1] != 'raise']
+      d4 = [s for s in d4 if s[1] not in ('raise', 'raise2')]
     rng0.shuffle(d4)
     sk = sk + d4[:1500]
   for idx, (path, jump) in enumerate(sk):
@@ -167,6 +188,21 @@ def cases(seed, part, parts, tier, pure=False, constructs=None):
     if tier == 'quick':
       variants = [rng.choice(variants)]
     for reuse, uncond in variants:
-      src, nbits, nloops = build(path, jump, reuse, uncond, pure=pure)
-      yield (cid + ('/reuse' if reuse else '') + ('/uncond' if uncond else ''),
-             grammar.PREAMBLE + src, inputs_for(nbits, nloops, rng))
+      sites = ['f'] + ['a%d' % k for k in range(len(path))] + [
+          'h%d' % k for k in range(len(path)) if path[k].startswith('tryexcept')] + [
+          'o%d' % k for k in range(len(path))]
+      # targeted patterns: u read only in handler k and overwritten after every
+      # construct nested in it (liveness along exceptional edges), plus random ones
+      pats = []
+      for k in range(len(path)):
+        if path[k].startswith('tryexcept'):
+          pats.append(tuple(sorted(['h%d' % k] + ['o%d' % j for j in range(k + 1, len(path))])))
+      rnd = [tuple(sorted(x for x in sites if rng.random() < 0.4)) for _ in range(2)]
+      if tier == 'quick':
+        allp = [rng.choice(pats)] if pats and rng.random() < 0.6 else [rnd[0]]
+      else:
+        allp = pats + rnd
+      for ureads in allp:
+        src, nbits, nloops = build(path, jump, reuse, uncond, pure=pure, ureads=ureads)
+        yield (cid + ('/reuse' if reuse else '') + ('/uncond' if uncond else '') + '/u=' + '.'.join(ureads),
+               grammar.PREAMBLE + src, inputs_for(nbits, nloops, rng))
